@@ -539,7 +539,6 @@ func (fx *FuncCtx) specPureCall(env *specEnv, x *ast.CallExpr, name string) (sva
 	return sval{v, sig.Results().At(0).Type()}, true
 }
 
-
 // modTarget is one location set of a modifies clause: heap arrays and the
 // reference whose entries may change (all = every reference).
 type modTarget struct {
